@@ -487,3 +487,42 @@ def check_state_eq(model, rep, rule, cls):
             line=eq.node.lineno,
             witness='a loop that changes the type / definitions of a variable that is '
             'not the first symbol of the table')
+
+
+def check_state_encapsulated(model, rep, rule, rel, cls, field):
+  """The state's table is only combined through the class's own operators (`|`
+  unites the definitions of a symbol, `-` drops symbols): outside the class
+  nothing writes into `<state>.<field>` -- a dict-level update *replaces* the
+  entry of a symbol that both states hold."""
+  m = model.module(rel)
+  bad = []
+  for fi in m.all_functions():
+    if fi.cls is not None and fi.cls.name == cls.name:
+      continue
+    for x in core.walk_no_nested(fi.node):
+      recv = None
+      if isinstance(x, ast.Call) and isinstance(x.func, ast.Attribute) and \
+          x.func.attr in _MUTATORS:
+        recv = x.func.value
+      elif isinstance(x, (ast.Assign, ast.AugAssign, ast.Delete)):
+        tgs = x.targets if not isinstance(x, ast.AugAssign) else [x.target]
+        for t in tgs:
+          if isinstance(t, ast.Subscript):
+            recv = t.value
+          elif isinstance(t, ast.Attribute) and t.attr == field and isinstance(
+              x, ast.AugAssign):
+            recv = t
+      if recv is None:
+        continue
+      b = recv
+      while isinstance(b, ast.Subscript):
+        b = b.value
+      if isinstance(b, ast.Attribute) and b.attr == field and not (
+          isinstance(b.value, ast.Name) and b.value.id == 'self'):
+        bad.append('%s: %s' % (fi.qualname, core.norm(x)[:70]))
+  rep.check(not bad, rule, '%s:%s:table-written-only-by-the-class' % (rel, cls.name),
+            'the table of a state is changed from outside the state class: a symbol '
+            'present in both operands keeps only one side\'s definitions (the class\'s '
+            '| unites them)', {'writes': bad},
+            witness='a global / nonlocal declaration inside a loop body: the '
+            'definitions carried by the back edge are replaced, not united')
